@@ -28,6 +28,7 @@ func init() {
 	register(&stream{name: "c06.atoms", gen: genC06Atoms, run: runC06Atoms})
 	register(&stream{name: "c06.numbers", gen: genC06Numbers, run: runC06Numbers})
 	register(&stream{name: "c06.terms", gen: genC06Terms, run: runC06Terms})
+	register(&stream{name: "c06.shared", gen: genC06Shared, run: runC06Shared})
 }
 
 // ---------------------------------------------------------------------------------------------
@@ -849,4 +850,372 @@ func bumpLastDigit(s string, dir int) string {
 		return m[:len(m)-1] + string(last-1) + "9" + e
 	}
 	return m + e
+}
+
+// ---------------------------------------------------------------------------------------------
+// c06.shared: terms built WITH SHARING.  The term is constructed by ONE query
+//     V100 = f(a), V101 = h(V100,V100), T = g(V101,V100), writeq(S, T)
+// so that the same Go value (compound, list, partial list, string) is reached several times through variable
+// bindings.  Sharing is invisible in the abstract term: the model judges the tree with the bindings substituted.
+// `let` kinds also select the Go representation: eq (compound built by the VM), glist/gpartial/gchars/gcodes (engine.List,
+// PartialList, CharList, CodeList values inside the goal), and values produced by builtins (atom_codes, atom_chars,
+// append/3, findall/3, =../2, length/2).
+// ---------------------------------------------------------------------------------------------
+
+type c06Let struct{ kind, args string }
+
+var c06SharedNodes = []c06Let{
+	{"eq", "C1:f Aa"}, {"eq", "C2:- Aa Ab"}, {"eq", "C1:- I1"}, {"eq", "C1:- Aa"}, {"eq", "C1:%7b%7d Ax"}, {"eq", "C2:f V0 V1"}, {"eq", "C3:foo Aa I-1 Ahello%20world"},
+	{"eq", "C2:. I1 C2:. I2 A%5b%5d"}, {"glist", "C2:. I1 C2:. I2 A%5b%5d"}, {"glist", "C2:. C2:. I1 A%5b%5d C2:. C2:. I1 A%5b%5d A%5b%5d"},
+	{"gpartial", "C2:. Aa C2:. Ab V0"}, {"gpartial", "C2:. Aa Ab"}, {"gchars", "C2:. Aa C2:. Ab A%5b%5d"}, {"gcodes", "C2:. I97 C2:. I98 A%5b%5d"}, {"gchars", "C2:. A- C2:. A%27 A%5b%5d"},
+	{"codes", "Aab"}, {"chars", "Aab"}, {"chars", "Aa%20B"}, {"append", "C2:. Aa A%5b%5d C2:. Ab A%5b%5d"}, {"append", "C2:. Aa A%5b%5d V0"}, {"findall", "C2:. Aa C2:. Ab A%5b%5d"},
+	{"eq", "A-"}, {"eq", "A%5b%5d"}, {"eq", "Amod"}, {"eq", "I1"},
+	{"parse", encName(`g("ab","ab",f(a),f(a))`)}, {"parse", encName(`"ab"-"ab"`)}, {"parse", encName(`["ab","ab"|"ab"]`)}, {"parse", encName(`f("","",'')`)}, {"parse", encName(`"a""b\\n"+"a""b\\n"`)},
+	{"parse", encName(`[a,b|T]-[a,b|T]`)}, {"parse", encName(`f(X,Y,X,_,_)`)}, {"parse", encName(`- (1) - (- 1) - (-(1))`)}, {"parse", encName(`{[a|b],"c"}`)},
+	{"univ", "C2:. Af C2:. Aa A%5b%5d"}, {"univ", "C2:. A- C2:. I1 C2:. I2 A%5b%5d"}, {"length", "I2"}, {"eq", "Aa"}, {"eq", "I-1"}, {"eq", "F8000000000000000"}, {"eq", "C2:: C2:: Aa Ab Ac"},
+}
+
+// contexts with at least two occurrences of V100, in argument, operator, list-element, list-tail and curly positions
+var c06SharedContexts = []string{
+	"C2:g V100 V100", "C2:- V100 V100", "C2:= V100 V100", "C2:. V100 C2:. V100 A%5b%5d", "C2:. V100 V100", "C2:f C1:- V100 V100", "C2:f V100 C1:h V100",
+	"C2:+ C2:* V100 Ab C1:h C1:k V100", "C2:- C1:%7b%7d V100 V100", "C3:g V100 V100 V100", "C2:%2c V100 V100", "C2::- V100 V100", "C2:g C2:. Aa V100 V100",
+	"C2:* C1:- V100 C1:\\+ V100", "C2:^ V100 C2:^ V100 V100", "C1:%7b%7d C2:%2c V100 V100", "C2:g C2:. V100 Ab C2:. Aa C2:. V100 A%5b%5d",
+}
+
+func c06SharedExhaustive() []string {
+	var out []string
+	modes := []string{"writeq", "canonical", "wt"}
+	dqs := []string{"codes", "chars", "atom"}
+	k := 0
+	for _, n := range c06SharedNodes {
+		for _, c := range c06SharedContexts {
+			out = append(out, fmt.Sprintf("hdr %s %s ; let 100 %s %s ; term %s", modes[k%3], dqs[(k/3)%3], n.kind, n.args, c))
+			k++
+		}
+		// two levels: the shared node inside another shared node; an alias; the node under a user-defined operator
+		out = append(out, fmt.Sprintf("hdr %s %s ; let 100 %s %s ; let 101 eq C2:h V100 V100 ; term C2:g V101 V101", modes[k%3], dqs[k%3], n.kind, n.args))
+		out = append(out, fmt.Sprintf("hdr %s %s ; let 100 %s %s ; let 101 eq V100 ; term C2:- V100 V101", modes[(k+1)%3], dqs[k%3], n.kind, n.args))
+		out = append(out, fmt.Sprintf("hdr writeq %s ; op I700 Axfx Afoo ; op I200 Afy Abar ; let 100 %s %s ; term C2:foo C1:bar V100 C1:bar V100", dqs[k%3], n.kind, n.args))
+		out = append(out, fmt.Sprintf("hdr writeq %s ; op I200 Axf Apost ; let 100 %s %s ; let 101 eq C1:post V100 ; term C2:- V101 V101", dqs[k%3], n.kind, n.args))
+		k++
+	}
+	// '$VAR'(N) with N reached through a binding (numbervars is off under write_canonical and write_term(quoted(true)))
+	for m, mode := range []string{"canonical", "wt"} {
+		out = append(out, fmt.Sprintf("hdr %s %s ; let 100 eq I1 ; term C2:g C1:$VAR V100 C1:$VAR V100", mode, dqs[m]))
+		out = append(out, fmt.Sprintf("hdr %s %s ; let 100 eq C1:$VAR I27 ; term C2:- V100 V100", mode, dqs[m]))
+	}
+	// equal by value but separate objects (the identity of a string is its value), next to a shared one
+	for _, kind := range []string{"gchars", "gcodes", "chars", "codes", "glist", "eq"} {
+		arg := map[string]string{"gchars": "C2:. Aa C2:. Ab A%5b%5d", "gcodes": "C2:. I97 C2:. I98 A%5b%5d", "chars": "Aab", "codes": "Aab", "glist": "C2:. Aa C2:. Ab A%5b%5d", "eq": "C1:f Aa"}[kind]
+		for m, mode := range modes {
+			out = append(out, fmt.Sprintf("hdr %s %s ; let 100 %s %s ; let 101 %s %s ; term C2:g V100 V101", mode, dqs[m], kind, arg, kind, arg))
+			out = append(out, fmt.Sprintf("hdr %s %s ; let 100 %s %s ; let 101 %s %s ; term C3:g V100 V101 C2:- V100 V101", mode, dqs[m], kind, arg, kind, arg))
+		}
+	}
+	return out
+}
+
+func genC06SharedTerm(r *rand.Rand, depth int, names []string, nlets int, canonical bool) engine.Term {
+	if nlets > 0 && r.Intn(100) < 30 {
+		return engine.Variable(-(1 + 100 + int64(r.Intn(nlets))))
+	}
+	if depth <= 0 || r.Intn(10) < 2 {
+		return genC06Term(r, 0, names, 3, canonical)
+	}
+	sub := func() engine.Term { return genC06SharedTerm(r, depth-1, names, nlets, canonical) }
+	switch k := r.Intn(10); {
+	case k < 4:
+		f := pick(r, []string{"-", "+", "*", "=", ",", ":-", "\\+", "^", "mod", ";", "->", "|"})
+		if r.Intn(3) == 0 {
+			f = pick(r, names)
+		}
+		if r.Intn(4) == 0 {
+			return atom(f).Apply(sub())
+		}
+		return atom(f).Apply(sub(), sub())
+	case k < 7:
+		ar := 1 + r.Intn(3)
+		args := make([]engine.Term, ar)
+		for j := range args {
+			args[j] = sub()
+		}
+		return atom(pick(r, []string{"f", "g", "foo", "-", "[]", "hello world", "{}"})).Apply(args...)
+	case k < 9:
+		m := 1 + r.Intn(3)
+		var t engine.Term = atom("[]")
+		if r.Intn(3) == 0 {
+			t = sub()
+		}
+		for j := 0; j < m; j++ {
+			t = atom(".").Apply(sub(), t)
+		}
+		return t
+	default:
+		return atom("{}").Apply(sub())
+	}
+}
+
+func genC06Shared(r *rand.Rand, n int, tier string) []string {
+	out := c06SharedExhaustive()
+	for i := 0; i < n; i++ {
+		mode := pick(r, []string{"writeq", "writeq", "canonical", "wt"})
+		dq := pick(r, []string{"codes", "chars", "atom"})
+		var parts []string
+		parts = append(parts, "hdr "+mode+" "+dq)
+		names := []string{"-", "+", "*", "=", "mod"}
+		if r.Intn(3) == 0 {
+			for j := 0; j < 1+r.Intn(3); j++ {
+				nm := pick(r, c06OpNames)
+				names = append(names, nm)
+				parts = append(parts, fmt.Sprintf("op I%d A%s A%s", pick(r, c06OpPris), pick(r, c06OpSpecs), encName(nm)))
+			}
+		}
+		nlets := 1 + r.Intn(3)
+		for j := 0; j < nlets; j++ {
+			if r.Intn(3) == 0 {
+				nd := pick(r, c06SharedNodes)
+				parts = append(parts, fmt.Sprintf("let %d %s %s", 100+j, nd.kind, nd.args))
+				continue
+			}
+			// a random compound that may contain the earlier shared nodes
+			var t engine.Term
+			for {
+				t = genC06SharedTerm(r, 1+r.Intn(2), names, j, mode == "canonical")
+				if _, ok := t.(engine.Compound); ok {
+					break
+				}
+			}
+			parts = append(parts, fmt.Sprintf("let %d eq %s", 100+j, c06WireTerm(t)))
+		}
+		t := genC06SharedTerm(r, 1+r.Intn(3), names, nlets, mode == "canonical")
+		// make sure some shared node occurs twice
+		v := engine.Variable(-(1 + 100 + int64(r.Intn(nlets))))
+		switch r.Intn(5) {
+		case 0:
+			t = atom("g").Apply(t, v, v)
+		case 1:
+			t = atom("-").Apply(atom("-").Apply(t, v), v)
+		case 2:
+			t = atom(".").Apply(v, atom(".").Apply(t, v))
+		case 3:
+			t = atom("f").Apply(t, atom("{}").Apply(v), v)
+		default:
+			t = atom(pick(r, names)).Apply(atom(pick(r, []string{"-", "\\+", "h"})).Apply(v), atom(pick(r, names)).Apply(v, t))
+		}
+		parts = append(parts, "term "+c06WireTerm(t))
+		out = append(out, strings.Join(parts, " ; "))
+	}
+	return out
+}
+
+// c06ListParts splits a '.'/2 spine into elements and tail.
+func c06ListParts(t engine.Term) ([]engine.Term, engine.Term) {
+	var elems []engine.Term
+	for {
+		c, ok := t.(engine.Compound)
+		if !ok || c.Functor().String() != "." || c.Arity() != 2 {
+			return elems, t
+		}
+		elems = append(elems, c.Arg(0))
+		t = c.Arg(1)
+	}
+}
+
+func c06CollectFloatsEnv(t engine.Term, env *engine.Env, seen map[uint64]bool, out *[]string) {
+	switch t := env.Resolve(t).(type) {
+	case engine.Float:
+		b := math.Float64bits(float64(t))
+		if !seen[b] {
+			seen[b] = true
+			*out = append(*out, fmt.Sprintf("%016x:%s", b, encName(strconv.FormatFloat(float64(t), 'g', -1, 64))))
+		}
+	case engine.Compound:
+		for i := 0; i < t.Arity(); i++ {
+			c06CollectFloatsEnv(t.Arg(i), env, seen, out)
+		}
+	}
+}
+
+func runC06Shared(payload string) string {
+	parts := strings.Split(payload, " ; ")
+	hdr := strings.Fields(parts[0])
+	mode, dq := hdr[1], hdr[2]
+	i, _ := newInterp("")
+	vm := &i.VM
+	d := newTermDecoder()
+	var goals []engine.Term
+	var letVars []engine.Variable
+	var t engine.Term
+	occ := 0
+	for _, p := range parts[1:] {
+		f := strings.SplitN(strings.TrimSpace(p), " ", 2)
+		switch f[0] {
+		case "op":
+			ts, err := d.terms(f[1])
+			must(err)
+			_ = solveOnce(vm, compound("op", ts...))
+		case "let":
+			g := strings.SplitN(f[1], " ", 3)
+			n, err := strconv.Atoi(g[0])
+			must(err)
+			v := d.variable(n)
+			letVars = append(letVars, v)
+			if g[1] == "parse" {
+				// the value is what the real reader makes of a text (its own list / partial / string representations)
+				src, err := decName(g[2])
+				must(err)
+				in := engine.NewInputTextStream(strings.NewReader(src + " ."))
+				goals = append(goals, compound("read_term", in, v, atom("[]")))
+				break
+			}
+			ts, err := d.terms(g[2])
+			must(err)
+			switch g[1] {
+			case "eq":
+				goals = append(goals, compound("=", v, ts[0]))
+			case "glist":
+				es, _ := c06ListParts(ts[0])
+				goals = append(goals, compound("=", v, engine.List(es...)))
+			case "gpartial":
+				es, tail := c06ListParts(ts[0])
+				goals = append(goals, compound("=", v, engine.PartialList(tail, es...)))
+			case "gchars", "gcodes":
+				es, _ := c06ListParts(ts[0])
+				var sb strings.Builder
+				for _, e := range es {
+					switch e := e.(type) {
+					case engine.Atom:
+						sb.WriteString(e.String())
+					case engine.Integer:
+						sb.WriteRune(rune(e))
+					}
+				}
+				if g[1] == "gchars" {
+					goals = append(goals, compound("=", v, engine.CharList(sb.String())))
+				} else {
+					goals = append(goals, compound("=", v, engine.CodeList(sb.String())))
+				}
+			case "codes":
+				goals = append(goals, compound("atom_codes", ts[0], v))
+			case "chars":
+				goals = append(goals, compound("atom_chars", ts[0], v))
+			case "append":
+				goals = append(goals, compound("append", ts[0], ts[1], v))
+			case "findall":
+				x := engine.NewVariable()
+				goals = append(goals, compound("findall", x, compound("member", x, ts[0]), v))
+			case "univ":
+				goals = append(goals, compound("=..", v, ts[0]))
+			case "length":
+				goals = append(goals, compound("length", v, ts[0]))
+			default:
+				panic("bad let kind " + g[1])
+			}
+			occ += strings.Count(" "+g[2]+" ", " V1")
+		case "term":
+			ts, err := d.terms(f[1])
+			must(err)
+			t = ts[0]
+			occ += strings.Count(" "+f[1]+" ", " V1")
+		}
+	}
+	if r := solveOnce(vm, compound("set_prolog_flag", atom("double_quotes"), atom(dq))); r != "true" {
+		panic("set_prolog_flag: " + r)
+	}
+	var buf bytes.Buffer
+	out := engine.NewOutputTextStream(&buf)
+	tv := engine.NewVariable()
+	goals = append(goals, compound("=", tv, t))
+	switch mode {
+	case "writeq":
+		goals = append(goals, compound("writeq", out, tv))
+	case "canonical":
+		goals = append(goals, compound("write_canonical", out, tv))
+	default:
+		goals = append(goals, compound("write_term", out, tv, engine.List(compound("quoted", atom("true")))))
+	}
+	// the very same object written a second time by the same query (nothing may be remembered between two writes)
+	var bufAgain bytes.Buffer
+	{
+		last := goals[len(goals)-1].(engine.Compound)
+		args := make([]engine.Term, last.Arity())
+		for k := range args {
+			args[k] = last.Arg(k)
+		}
+		args[0] = engine.NewOutputTextStream(&bufAgain)
+		goals = append(goals, last.Functor().Apply(args...))
+	}
+	goal := goals[len(goals)-1]
+	for k := len(goals) - 2; k >= 0; k-- {
+		goal = compound(",", goals[k], goal)
+	}
+	// one query: the bindings, the term, the write; then what the engine itself sees as the tree
+	var tree string
+	var flts []string
+	reps := map[string]bool{}
+	n, err := solve(vm, goal, 1, 5e9, func(env *engine.Env) bool {
+		tree = wire(tv, env, newVarNamer())
+		c06CollectFloatsEnv(tv, env, map[uint64]bool{}, &flts)
+		for _, v := range letVars {
+			reps[engine.VerifTermRep(env.Resolve(v))] = true
+		}
+		return false
+	})
+	text := buf.String()
+	if err != nil {
+		text = "!" + errWire(err)
+	} else if n == 0 {
+		text = "!false"
+	}
+	rb := c06Read(vm, text+" .")
+	var vars []string
+	{
+		toks, _ := engine.VerifTokens(text)
+		seen := map[string]bool{}
+		for _, tk := range toks {
+			if tk.Kind == "variable" && !seen[tk.Val] {
+				seen[tk.Val] = true
+				vars = append(vars, tk.Val)
+			}
+		}
+	}
+	// the term the reader returned (in the reader's own representations), written again in one query
+	var buf2 bytes.Buffer
+	{
+		in := engine.NewInputTextStream(strings.NewReader(text + " ."))
+		out2 := engine.NewOutputTextStream(&buf2)
+		x := engine.NewVariable()
+		var wg engine.Term
+		switch mode {
+		case "writeq":
+			wg = compound("writeq", out2, x)
+		case "canonical":
+			wg = compound("write_canonical", out2, x)
+		default:
+			wg = compound("write_term", out2, x, engine.List(compound("quoted", atom("true"))))
+		}
+		if r := solveOnce(vm, compound(",", compound("read_term", in, x, atom("[]")), wg)); r != "true" {
+			buf2.Reset()
+			buf2.WriteString("!" + r)
+		}
+	}
+	rs := make([]string, 0, len(reps))
+	for k := range reps {
+		rs = append(rs, strings.NewReplacer("(", "_", ")", "").Replace(k))
+	}
+	sort.Strings(rs)
+	okTag := "same"
+	if rb != tree {
+		okTag = "DIFF"
+	}
+	nt := 0
+	if occ >= 2 {
+		nt = 1
+	}
+	again := "same"
+	if err == nil && n > 0 && bufAgain.String() != text {
+		again = "DIFF:" + encName(bufAgain.String())
+	}
+	return fmt.Sprintf("vars=[%s] flts=[%s] text=%s again=%s w2=%s rb=%s ### nt=%d mode=%s dq=%s reps=%s occ=%d lets=%d rt=%s",
+		strings.Join(vars, ","), strings.Join(flts, ","), encName(text), again, encName(buf2.String()), rb, nt, mode, dq, strings.Join(rs, "+"), minInt(occ, 6), len(letVars), okTag)
 }
